@@ -11,7 +11,9 @@
 (*   {"ev":"x","x":txn,"sels":[[name,...],...],"nact":n}                                    *)
 (*        one transaction evaluated by the real code once per load order / engine build:    *)
 (*        the names of the flows it selected each time; nact = number of actions returned   *)
-(*        (-1 when not observed)                                                            *)
+(*        (-1 when not observed); "early":[{"st":s,"rsel":[name,...]},...] per build: s > 0  *)
+(*        = the request was answered inside the gateway with status s (flow with "ans"),    *)
+(*        rsel = the flows whose response half then ran on the generated response           *)
 (* Every event is consumed; an event the property does not allow prints a line              *)
 (*   <<"REJ", line, json>>  carrying the spec's own classification (verdict per flow, the   *)
 (* clause that failed); an event on which the real code differs from the implementation     *)
@@ -19,9 +21,9 @@
 (* the only oracle.                                                                         *)
 EXTENDS TraceLib, FilterTreeI
 
-VARIABLES l, trees, orders
+VARIABLES l, trees, orders, zsel
 
-tvars == <<l, fs, tree, trees, orders>>
+tvars == <<l, fs, tree, trees, orders, zsel>>
 
 ToSet(s) == {s[i] : i \in 1..Len(s)}
 
@@ -32,7 +34,7 @@ TxnOfJson(j)  == [side |-> j.side, url |-> <<j.url[1], j.url[2]>>, method |-> j.
 
 Ev == TraceLog[l + 1]
 
-TInit == l = 1 /\ fs = <<>> /\ tree = EmptyTree /\ trees = <<>> /\ orders = <<>>
+TInit == l = 1 /\ fs = <<>> /\ tree = EmptyTree /\ trees = <<>> /\ orders = <<>> /\ zsel = {}
 
 TReset ==
     /\ l < TraceLen /\ Ev.ev = "reset"
@@ -41,6 +43,7 @@ TReset ==
     /\ orders' = Ev.orders
     /\ trees' = [k \in 1..Len(Ev.orders) |->
                     Build([i \in 1..Len(Ev.orders[k]) |-> FlowOfJson(Ev.flows[Ev.orders[k][i]])])]
+    /\ zsel' = {}
     /\ UNCHANGED tree
 
 F == ToSet(fs)
@@ -48,16 +51,63 @@ F == ToSet(fs)
 \* the flows in load order k
 Ordered(k) == [i \in 1..Len(orders[k]) |-> fs[orders[k][i]]]
 
-VerdictMap(x) == [i \in 1..Len(fs) |-> <<fs[i].name, Verdict(fs[i], x, F)>>]
+VerdictMapF(x, G) == [i \in 1..Len(fs) |-> <<fs[i].name, IF fs[i] \in G THEN Verdict(fs[i], x, F) ELSE "n/a">>]
 
-Judge(x, sels, nact) ==
-    LET selsets  == {ToSet(sels[k]) : k \in 1..Len(sels)}
-        correct  == \A s \in selsets : Correct(s, x, F)
-        orderind == OrderIndependent(selsets)
-        pass     == nact < 0 \/ PassThrough(nact, x, F)
-    IN  IF correct /\ orderind /\ pass THEN TRUE
-        ELSE PrintT(<<"REJ", l + 1, ToJson([correct |-> correct, orderind |-> orderind, passthrough |-> pass,
-                                          verdicts |-> VerdictMap(x)])>>)
+\* FilterP!Correct for the flows G of the configuration that this side of a transaction can select; the patterns
+\* that may shadow a flow are those of the whole configuration F (all of them live in the one filter tree)
+CorrectG(sel, x, G) ==
+    /\ sel \subseteq Names(G)
+    /\ \A f \in G : LET v == Verdict(f, x, F) IN
+                    /\ v = Yes => f.name \in sel
+                    /\ v = No  => f.name \notin sel
+
+\* a quota (fixed window) has a request half only: it is not part of what a response can select
+UserF == {f \in F : f.typ # "quota"}
+Seen(x) == IF x.side = "req" THEN F ELSE UserF
+
+\* build k answered the request inside the gateway (early response)
+IsEarly(early, k) == k <= Len(early) /\ early[k].st > 0
+EarlyTxn(x, st) == [x EXCEPT !.side = "early", !.status = st, !.hdr = {}, !.qry = {}]
+
+\* A request answered by one of its flows: the user flows placed behind the answering one are not started
+\* (early response wins - C04/C07), so on the request side only "no flow ran whose filter rejects the
+\* request" and the system flows of the quotas (they run before every user flow) are decided.  The flows are
+\* looked up again for the generated response: that selection is judged like any response-side selection.
+EarlyOK(x, sel, e) ==
+    LET xe == EarlyTxn(x, e.st) IN
+    /\ sel \subseteq Names(F)
+    /\ \A f \in F : /\ Verdict(f, x, F) = No => f.name \notin sel
+                    /\ (f.typ = "quota" /\ Verdict(f, x, F) = Yes) => f.name \in sel
+    /\ CorrectG(ToSet(e.rsel), xe, UserF)
+
+\* Open URL zones (Z1, Z2) are open as a whole, not per lookup: whether the URL pattern of a flow accepts a URL is a
+\* function of the configuration and the URL alone.  zsel remembers, for the current configuration, how the real code
+\* decided <<url, flow>> for flows all of whose other constraints were satisfied; a later transaction with the same
+\* URL (other method, other side of the transaction) must see the same decision.
+ZoneFlows(x) == {f \in Seen(x) : /\ UrlV(f.pat, x.url, Pats(F)) = Either
+                                  /\ And3({MethodV(f, x), HeaderV(f, x), QueryV(f, x), StatusV(f, x)}) = Yes}
+ZoneObs(x, sels, early) ==
+    IF Len(sels) = 0 \/ IsEarly(early, 1) THEN {}
+    ELSE {<<x.url, f.name, f.name \in ToSet(sels[1])>> : f \in ZoneFlows(x)}
+ZoneConsistent(obs) == \A o \in obs : \A t \in zsel : (t[1] = o[1] /\ t[2] = o[2]) => t[3] = o[3]
+
+Judge(x, sels, nact, early) ==
+    LET G        == Seen(x)
+        zone     == ZoneConsistent(ZoneObs(x, sels, early))
+        K        == 1..Len(sels)
+        K1       == {k \in K : IsEarly(early, k)}
+        K0       == K \ K1
+        correct  == /\ \A k \in K0 : CorrectG(ToSet(sels[k]), x, G)
+                    /\ \A k \in K1 : EarlyOK(x, ToSet(sels[k]), early[k])
+        orderind == /\ OrderIndependent({ToSet(sels[k]) : k \in K0})
+                    /\ OrderIndependent({ToSet(early[k].rsel) : k \in K1})
+                    /\ (K0 = {} \/ K1 = {})
+        pass     == nact < 0 \/ K1 # {} \/ PassThrough(nact, x, G)
+    IN  IF correct /\ orderind /\ pass /\ zone THEN TRUE
+        ELSE PrintT(<<"REJ", l + 1, ToJson([correct |-> correct, orderind |-> orderind, passthrough |-> pass, zone |-> zone,
+                                          verdicts |-> VerdictMapF(x, G),
+                                          everdicts |-> IF K1 = {} THEN <<>>
+                                                        ELSE VerdictMapF(EarlyTxn(x, early[CHOOSE k \in K1 : TRUE].st), UserF)])>>)
 
 Drift(x, sels) ==
     IF \/ Len(orders) # Len(sels)
@@ -68,12 +118,13 @@ Drift(x, sels) ==
     ELSE PrintT(<<"DRIFT", l + 1, ToJson([model |-> [k \in 1..Len(orders) |->
                     LET os == Ordered(k) IN {os[i].name : i \in Select(trees[k], os, x)}]])>>)
 
-NonTriv(x) == IF NonTrivial(x, F) THEN PrintT(<<"NT", l + 1>>) ELSE TRUE
+NonTriv(x) == IF NonTrivial(x, Seen(x)) THEN PrintT(<<"NT", l + 1>>) ELSE TRUE
 
 TX ==
     /\ l < TraceLen /\ Ev.ev = "x"
     /\ l' = l + 1
-    /\ LET x == TxnOfJson(Ev.x) IN Judge(x, Ev.sels, Ev.nact) /\ Drift(x, Ev.sels) /\ NonTriv(x)
+    /\ LET x == TxnOfJson(Ev.x) IN Judge(x, Ev.sels, Ev.nact, Ev.early) /\ Drift(x, Ev.sels) /\ NonTriv(x)
+    /\ zsel' = zsel \cup ZoneObs(TxnOfJson(Ev.x), Ev.sels, Ev.early)
     /\ UNCHANGED <<fs, tree, trees, orders>>
 
 TNext == TReset \/ TX
